@@ -1,6 +1,7 @@
 package main
 
 import (
+	"go/token"
 	"fmt"
 
 	"golang.org/x/tools/go/ssa"
@@ -219,20 +220,56 @@ func c17R3(c *Ctx, r *Report) {
 		}
 		r.Check("C17-R3", "fn=(*db.Checkpointer)._calculateSafeExpectedSeqsIdx scan stops-at=first-unprocessed", c.Pos(lk.Pos()), stops, "the miss edge leaves the loop", "the scan continues past an expected sequence that has not been processed: the checkpoint could run ahead of an outstanding change")
 		// the returned index: phi whose non-initial edges come from the hit side
+		// Accepted forms of the returned index (all equal "index of the last element of the all-processed prefix", given that the
+		// scan stops at the first miss): an accumulator assigned the loop index only on the hit edge; -1; `i - 1` returned from
+		// inside iteration i; `len(expectedSeqs) - 1` returned only when the loop ran to completion (not reachable from a miss).
+		var loopIdx ssa.Value
+		DependsOn(lk.Index, func(v ssa.Value) bool {
+			if ia, ok := v.(*ssa.IndexAddr); ok && loopIdx == nil {
+				loopIdx = ia.Index
+			}
+			return false
+		})
 		adv := len(hit) > 0
 		for _, ret := range Returns(fn) {
-			phi, ok := ret.Results[0].(*ssa.Phi)
-			if !ok {
-				adv = false
+			v := ret.Results[0]
+			if k, isK := constInt(v); isK && k == -1 {
 				continue
 			}
-			adv = adv && c17PhiAdvancesOnlyOnHit(fn, phi, hit, map[*ssa.Phi]bool{})
+			if phi, ok := v.(*ssa.Phi); ok {
+				adv = adv && c17PhiAdvancesOnlyOnHit(fn, phi, hit, map[*ssa.Phi]bool{})
+				continue
+			}
+			if b, ok := v.(*ssa.BinOp); ok && b.Op == token.SUB {
+				if k, isK := constInt(b.Y); isK && k == 1 {
+					if loopIdx != nil && b.X == loopIdx && stops {
+						continue // i - 1 from inside iteration i: every earlier iteration took the hit edge
+					}
+					if call, isCall := b.X.(*ssa.Call); isCall && stops {
+						if bi, isB := call.Call.Value.(*ssa.Builtin); isB && bi.Name() == "len" {
+							if f, _ := fieldRead(call.Call.Args[0]); f != nil && f.Name() == "expectedSeqs" {
+								fromMiss := false
+								for _, e := range miss {
+									if ReachFrom(e.To(), 0, func(in ssa.Instruction) bool { return in == ssa.Instruction(ret) }, nil) != nil {
+										fromMiss = true
+									}
+								}
+								if !fromMiss {
+									continue // len - 1 only after the loop ran to completion: every element was a hit
+								}
+							}
+						}
+					}
+				}
+			}
+			adv = false
 		}
 		r.Check("C17-R3", "fn=(*db.Checkpointer)._calculateSafeExpectedSeqsIdx index advances-only-on=processed-hit", c.Pos(lk.Pos()), adv, "the safe index is only assigned on the processed-hit edge", "the safe index can be assigned for an expected sequence that was not found in the processed set")
 	}
-	// compaction
+	// compaction (in _updateCheckpointLists itself or in a helper extracted from it)
 	n := 0
-	EachInstr(upd, false, func(in ssa.Instruction) {
+	for _, host := range c.PrivateHelpers(upd, 2) {
+	EachInstr(host, false, func(in ssa.Instruction) {
 		call, ok := in.(*ssa.Call)
 		if !ok {
 			return
@@ -246,7 +283,7 @@ func c17R3(c *Ctx, r *Report) {
 		}
 		// only the compaction delete (inside the threshold branch): its key is loaded from expectedSeqs[i] where i is not bounded by maxI loop — identify by being dominated by two commaok lookups
 		var hits [][]Edge
-		EachInstr(upd, false, func(in2 ssa.Instruction) {
+		EachInstr(host, false, func(in2 ssa.Instruction) {
 			lk, ok := in2.(*ssa.Lookup)
 			if !ok || !lk.CommaOk {
 				return
@@ -256,7 +293,7 @@ func c17R3(c *Ctx, r *Report) {
 			}
 			for _, ref := range *lk.Referrers() {
 				if e, ok := ref.(*ssa.Extract); ok && e.Index == 1 {
-					pos, _ := EdgesOnValue(upd, func(v ssa.Value) bool { return v == ssa.Value(e) })
+					pos, _ := EdgesOnValue(host, func(v ssa.Value) bool { return v == ssa.Value(e) })
 					if len(pos) > 0 {
 						hits = append(hits, pos)
 					}
@@ -265,7 +302,7 @@ func c17R3(c *Ctx, r *Report) {
 		})
 		domBy := 0
 		for _, h := range hits {
-			if DominatedBy(upd, call, NewAvoid().AddEdge(h...)) {
+			if DominatedBy(host, call, NewAvoid().AddEdge(h...)) {
 				domBy++
 			}
 		}
@@ -275,6 +312,7 @@ func c17R3(c *Ctx, r *Report) {
 		n++
 		r.Check("C17-R3", fmt.Sprintf("fn=(*db.Checkpointer)._updateCheckpointLists compaction-delete #%d only-if=current-and-next-processed", n), c.Pos(call.Pos()), domBy == 2, "dominated by both processed-hit edges", "compaction can drop an expected sequence whose successor is not processed: the retained list would allow a checkpoint past an outstanding change")
 	})
+	}
 	if n == 0 {
 		r.Fail("C17-R3", "fn=(*db.Checkpointer)._updateCheckpointLists compaction", c.Pos(upd.Pos()), "compaction branch not found")
 	}
